@@ -175,14 +175,18 @@ def _Y_table(l, theta, phi):
     return np.array([sp.sph_harm(m, l, phi % (2 * np.pi), theta) for m in range(-l, l + 1)])
 
 
-def _make_system(rng, trial, tmpdir, weighted, l):
-    """seeded trajectory + neighbour file (+ weight file) in the format of the neighbors module"""
+def _make_system(rng, trial, tmpdir, weighted, l, frames=None, steps=None):
+    """seeded trajectory + neighbour file (+ weight file) in the format of the neighbors module; frames: number of frames (default
+    seeded 1..3); steps(T) -> list of the T integer timesteps (default 0, 10, 20, ...)"""
     import importlib
     import os
     import numpy as np
     RUm = importlib.import_module("PyMatterSim.reader.reader_utils")
     N = int(rng.integers(3, 9))
     T = int(rng.integers(1, 4))
+    if frames is not None:
+        T = int(frames)
+    tsteps = [int(x) for x in steps(T)] if steps is not None else [10 * s for s in range(T)]
     L = rng.uniform(3.0, 6.0, size=3)
     H = np.diag(L)
     if trial % 2 == 1:
@@ -194,7 +198,7 @@ def _make_system(rng, trial, tmpdir, weighted, l):
     snaps, nbs, wts = [], [], []
     for s in range(T):
         pos = rng.uniform(0, 1, size=(N, 3)) @ H
-        snaps.append(RUm.SingleSnapshot(timestep=10 * s, nparticle=N, particle_type=np.ones(N, dtype=int), positions=pos, boxlength=L.copy(),
+        snaps.append(RUm.SingleSnapshot(timestep=tsteps[s], nparticle=N, particle_type=np.ones(N, dtype=int), positions=pos, boxlength=L.copy(),
                                         boxbounds=np.column_stack([np.zeros(3), L]), realbounds=np.column_stack([np.zeros(3), L]), hmatrix=H.copy()))
         fn, fw = [], []
         for i in range(N):
@@ -217,7 +221,8 @@ def _make_system(rng, trial, tmpdir, weighted, l):
             for i in range(N):
                 f.write(f"{i+1} {len(wts[s][i])} " + " ".join(repr(w) for w in wts[s][i]) + "\n")
     S = RUm.Snapshots(nsnapshots=T, snapshots=snaps)
-    return dict(N=N, T=T, H=H, L=L, ppp=ppp, Nmax=Nmax, snaps=snaps, S=S, nbs=nbs, wts=wts, nfile=nfile, wfile=wfile if weighted else None, l=l)
+    return dict(N=N, T=T, H=H, L=L, ppp=ppp, Nmax=Nmax, snaps=snaps, S=S, nbs=nbs, wts=wts, nfile=nfile, wfile=wfile if weighted else None, l=l,
+                timesteps=tsteps)
 
 
 def _ref_fields(sy):
@@ -269,8 +274,15 @@ def _replay_boo(what, case, clause, model, seed):
             l = int(rng.choice([2, 4, 6, 3, 11])) if what != "w_W_cap" else int(rng.choice([2, 4]))
             if case.startswith("l="):
                 l = int(case.split("/")[0][2:])
-            sy = _make_system(rng, trial, tmpdir, weighted, l)
-            info = {k: sy[k] for k in ("N", "T", "l", "Nmax")}
+            kw = {}
+            if what == "spatial_corr":
+                kw = dict(frames=[1, 2, 3, 2][trial % 4])
+            elif what == "time_corr":
+                # one frame; two frames (always "evenly spaced"); evenly spaced with a non-zero first timestep; unevenly spaced (first origin only)
+                kw = [dict(frames=1), dict(frames=2, steps=lambda T: [7, 19]), dict(frames=4, steps=lambda T: [5 + 20 * s for s in range(T)]),
+                      dict(frames=4, steps=lambda T: [0, 10, 30, 70][:T]), dict(frames=3, steps=lambda T: [3, 4, 9][:T])][trial % 5]
+            sy = _make_system(rng, trial, tmpdir, weighted, l, **kw)
+            info = {k: sy[k] for k in ("N", "T", "l", "Nmax", "timesteps")}
             info.update(hmatrix=sy["H"].tolist(), ppp=sy["ppp"].tolist(), weighted=bool(weighted), neighbours=sy["nbs"],
                         weights=sy["wts"] if weighted else None, positions=[sn.positions.tolist() for sn in sy["snaps"]])
             try:
@@ -388,6 +400,93 @@ def _check_method(B, obj, what, case, sy, q, Q, tmpdir, rng):
         if files[0] and not (_close(np.load(files[0] + ".npy"), got_w) and _close(np.load(files[1]), got_c)
                              and _close(np.loadtxt(files[0]).reshape(T, N), got_w, rel=1e-4, abs_=1e-6)):
             return "saved files differ from the returned arrays"
+        return None
+    if what == "spatial_corr":
+        # eq. (8) through the conditional_gr contract (C13): per frame, every unordered pair once, weight Re sum_m q_lm(i) conj q_lm(j),
+        # B = int(Lmin/2/rdelta) bins of width rdelta, gA = 2 V cnt_w/(N^2 shell), gr = 2 V cnt_1/(N^2 shell); then the frame average
+        import pandas as pd
+        of = os.path.join(tmpdir, "gl.csv") if case.endswith("/file") else ""
+        rdelta = float(rng.choice([0.25, 0.4, 0.5]))
+        H, L, ppp = sy["H"], sy["L"], sy["ppp"]
+        try:
+            got = obj.spatial_corr(coarse_graining=cg, rdelta=rdelta, outputfile=of)
+        except Exception as e:
+            return f"spatial_corr(coarse_graining={cg}, rdelta={rdelta}) raises {type(e).__name__}: {e}"
+        B = int(L.min() / 2.0 / rdelta)
+        Hinv = np.linalg.inv(H)
+        V = float(np.prod(L))
+        edges = np.arange(B + 1) * rdelta
+        shell = 4.0 / 3.0 * np.pi * (edges[1:] ** 3 - edges[:-1] ** 3)
+        want = np.zeros((B, 3))
+        for s_ in range(T):
+            pos = sy["snaps"][s_].positions
+            c1, cw = np.zeros(B), np.zeros(B)
+            for i in range(N - 1):
+                for j in range(i + 1, N):
+                    m = (pos[j] - pos[i]) @ Hinv
+                    m = m - np.rint(m) * ppp
+                    b = m @ H
+                    d = float(np.sqrt((b * b).sum()))
+                    if d > B * rdelta:
+                        continue
+                    kbin = min(int(d / rdelta), B - 1)
+                    c1[kbin] += 1.0
+                    cw[kbin] += float((f[s_, i] * np.conj(f[s_, j])).sum().real)
+            want[:, 0] += edges[1:] - 0.5 * rdelta
+            want[:, 1] += 2.0 * V * c1 / (N * N * shell)
+            want[:, 2] += 2.0 * V * cw / (N * N * shell)
+        want /= T
+        if not hasattr(got, "columns") or list(got.columns) != GCOLS:
+            return f"spatial_corr returns columns {list(getattr(got, 'columns', []))}, expected {GCOLS}"
+        g = np.asarray(got.values, dtype=float)
+        if g.shape != want.shape:
+            return f"spatial_corr(rdelta={rdelta}) returns {g.shape[0]} rows, int(Lmin/2/rdelta) = {B}"
+        if not _close(g, want, rel=1e-8, abs_=1e-10):
+            kk = np.unravel_index(np.argmax(np.abs(g - want)), want.shape)
+            return (f"spatial_corr(coarse_graining={cg}, rdelta={rdelta}): column {GCOLS[kk[1]]}, bin {kk[0]}: got {g[kk]!r}, the frame average of "
+                    f"conditional g(r) of the {'Q' if cg else 'q'}_lm field (T = {T}) is {want[kk]!r}")
+        if of:
+            if not os.path.exists(of):
+                return "spatial_corr: no csv file written"
+            df = pd.read_csv(of)
+            if list(df.columns) != GCOLS or not _close(df.values, np.round(g, 8), rel=1e-9, abs_=2e-8):
+                return "spatial_corr: csv file differs from the returned frame (columns r,gr,gA, 8 decimals)"
+        elif os.path.exists(os.path.join(tmpdir, "gl.csv")) and not case.endswith("/file"):
+            return "spatial_corr wrote a file although outputfile is empty"
+        return None
+    if what == "time_corr":
+        # eq. (9) normalised to 1 at t = 0 (C14): all time origins for evenly spaced frames (T >= 2), the first frame only otherwise
+        import pandas as pd
+        of = os.path.join(tmpdir, "gl_time.csv") if case.endswith("/file") else ""
+        dt = float(rng.choice([0.002, 0.01, 0.5]))
+        try:
+            got = obj.time_corr(coarse_graining=cg, dt=dt, outputfile=of)
+        except Exception as e:
+            return f"time_corr(coarse_graining={cg}, dt={dt}) raises {type(e).__name__}: {e}"
+        ts = np.array(sy["timesteps"], dtype=int)
+        even = T >= 2 and len(set(np.diff(ts).tolist())) == 1
+
+        def P(a, b_):
+            return float((f[a] * np.conj(f[b_])).sum().real)
+        C = np.array([np.mean([P(n0 + k, n0) for n0 in range(T - k)]) if even else P(k, 0) for k in range(T)])
+        want = C / C[0]
+        if not hasattr(got, "columns") or list(got.columns) != ["t", "time_corr"] or len(got) != T:
+            return f"time_corr returns columns {list(getattr(got, 'columns', []))} and {len(got)} rows; expected t, time_corr and {T} rows"
+        tc_ = np.asarray(got["time_corr"].values, dtype=float)
+        if tc_[0] != 1.0:
+            return f"time_corr[0] = {tc_[0]!r}, the normalised correlation is exactly 1 at t = 0 (l = {l}, 4 pi/(2l+1) = {4 * np.pi / (2 * l + 1)!r})"
+        if not _close(tc_, want, rel=1e-9, abs_=1e-12):
+            kk = int(np.argmax(np.abs(tc_ - want)))
+            return (f"time_corr(coarse_graining={cg}, dt={dt})[{kk}] = {tc_[kk]!r}; C({kk})/C(0) of the {'Q' if cg else 'q'}_lm field "
+                    f"({'all origins' if even else 'first origin'}, timesteps {ts.tolist()}) = {want[kk]!r}")
+        if not _close(np.asarray(got["t"].values, dtype=float), (ts - ts[0]) * dt, rel=1e-12, abs_=1e-15):
+            return f"time axis {np.asarray(got['t'].values).tolist()}, expected (ts - ts_0) dt = {((ts - ts[0]) * dt).tolist()}"
+        if of:
+            if not os.path.exists(of):
+                return "time_corr: no csv file written"
+            df = pd.read_csv(of)
+            if list(df.columns) != ["t", "time_corr"] or not _close(df.values, np.round(np.asarray(got.values, dtype=float), 8), rel=1e-9, abs_=2e-8):
+                return "time_corr: csv file differs from the returned frame (columns t,time_corr, 8 decimals)"
         return None
     return "no replay for " + what
 
@@ -736,6 +835,356 @@ class WCap(Unit):
         return _replay_boo("w_W_cap", case, clause, model, seed)
 
 
+# ---- spatial_corr / time_corr: the callee contracts of conditional_gr (C13) and time_correlation (C14) on the q_lm field -----------
+
+CGR = "PyMatterSim.static.gr.conditional_gr"
+TCORR = "PyMatterSim.dynamic.time_corr.time_correlation"
+GCOLS = ["r", "gr", "gA"]
+CALL_CGR = "call:conditional_gr(frame-n,q_lm[n],'vector',self.ppp,rdelta):arguments-and-preconditions"
+LOOP_INV = "frame-loop:invariant:glresults(k)=sum_{t<k}conditional_gr(frame-t)"
+CALL_TC = "call:time_correlation(trajectory,q_lm,dt):arguments-and-preconditions"
+
+
+def _named(goal, clause):
+    goal.clause = clause
+    return goal
+
+
+def _require(cond, kind, clause):
+    """side obligation of a call site / written loop summary that is reported under the named clause `clause` of the contract
+    (proved under the path condition at this point, then assumed — the same protocol as State.require)"""
+    from pyvc.loops import _SideGoal
+    from pyvc.state import cur
+    st = cur()
+    if sv.is_conc(cond):
+        if cond:
+            return
+        t = z3.BoolVal(False)
+    else:
+        t = sv.zb(cond)
+    g = _SideGoal(kind, t, st.all_assumptions(), st.where)
+    g.opts = None
+    g.clause = clause
+    st.side.append(g)
+    st.pc.append(t)
+
+
+def _same_array(a, b, what, clause):
+    """call-site obligation: array argument `a` has the shape and, at an arbitrary index, the elements of `b`"""
+    if not isinstance(a, A.Arr) or a.ndim != b.ndim:
+        _require(False, what + ":rank", clause)
+        return False
+    idx, conds = [], []
+    for k in range(b.ndim):
+        if not A.dim_eq_syntactic(a.shape[k], b.shape[k]):
+            _require(sv.cmp("==", a.shape[k], b.shape[k]), what + ":shape", clause)
+        t = sv.fresh_int("ai")
+        idx.append(t)
+        conds.append(sv.and_(sv.cmp(">=", t, 0), sv.cmp("<", t, b.shape[k])))
+    x, y = sv.as_cx(a.get(tuple(idx))), sv.as_cx(b.get(tuple(idx)))
+    _require(sv.implies(sv.and_(*conds), sv.and_(sv.cmp("==", x.re, y.re), sv.cmp("==", x.im, y.im))), what + ":elements", clause)
+    return True
+
+
+def _first_for_lineno(qual):
+    import ast
+    from pyvc.interp import load_module
+    node = load_module(MOD).get_class(qual.split(".")[0]).methods[qual.split(".")[1]]
+    for n in ast.walk(node):
+        if isinstance(n, ast.For):
+            return n.lineno
+    return None
+
+
+def _setup_corr(ctx, coarse):
+    """a boo_3d object after __init__ (object invariant): smallqlm / largeQlm arbitrary complex (T, N, 2l+1) fields, the trajectory,
+    the mask; every frame has the box lengths of frame 0 (asserted by __init__)"""
+    from contracts.C02 import _inv_spec
+    tr = Traj(ctx, 3)
+    T, N = tr.T, tr.N
+    l = _sym_l(ctx)
+    p = [ctx.int(f"ppp_{k}") for k in range(3)]
+    for k in range(3):
+        ctx.assume(sv.or_(sv.cmp("==", p[k], 0), sv.cmp("==", p[k], 1)))
+    ppp = A.from_nested(p, "int")
+    ctx.state.origin[ppp.sid] = "self.ppp"
+    snaps = tr.snapshots()
+    Nmax = ctx.int("Nmax")
+    o, small, large, M = _boo_self(ctx, l, T, N, dict(snapshots=snaps, ppp=ppp, neighborfile=NEIGHBORFILE, weightsfile=None, Nmax=Nmax))
+    BL = tr.BL
+    ctx.array_fact("BL", lambda s, c: BL(s, c) == BL(0, c))
+    ctx.array_fact("HM", lambda s, a, b: sv.zb(sv.cmp("!=", _inv_spec(tr.Hm(sv.SV(s)), 3)[0], 0)))
+    return o, dict(tr=tr, T=T, N=N, l=l, M=M, p=p, ppp=ppp, snaps=snaps, q=large if coarse else small, other=small if coarse else large)
+
+
+def rows_spec(tr, s, rd):
+    """C13 clause rows=int(Lmin/2/rdelta) for frame s"""
+    Ls = [tr.bl(s, c) for c in range(3)]
+    minL = Ls[0]
+    for L in Ls[1:]:
+        minL = sv.minv(minL, L)
+    return sv.trunc(sv.div(sv.div(minL, 2), rd))
+
+
+def bin_centre(b, rd):
+    """C13 clause r=bin-centre: right edge (b+1) rdelta minus half a bin"""
+    return sv.sub(sv.mul(sv.add(b, 1), rd), sv.mul(sv.to_frac(0.5), rd))
+
+
+class SpatialCorr(Unit):
+    """boo_3d.spatial_corr(coarse_graining, rdelta, outputfile): the frame average of conditional_gr(frame n, condition = q_lm[n] resp.
+    Q_lm[n], conditiontype "vector", the object's ppp, rdelta) — C13 callee contract: a frame with columns r, gr, gA and
+    int(Lmin/2/rdelta) rows, r_b the bin centre, gr / gA the table CGR_n(b, column) that conditional_gr returns for exactly these
+    arguments (every argument is a side obligation of the call).  Column c, bin b of the returned frame = (1/T) sum_n CGR_n(b, c).
+    The frame loop accumulates a DataFrame (0 + frame + frame ...): written invariant glresults(k) = sum_{t<k} CGR_t, with init / step
+    obligations generated from executions of the real body (init from the real pre-state glresults = 0)."""
+    module = MOD
+    qualname = f"{CLS}.spatial_corr"
+    prop = "C09"
+    timeout = 10
+
+    def cases(self):
+        return [f"{cg}/{of}" for cg in ("local", "coarse") for of in ("nofile", "file")]
+
+    def setup(self, ctx, case):
+        from contracts.C02 import _inv_spec
+        from pyvc.interp import Frame
+        from pyvc.loops import _SideGoal
+        from pyvc.pandas_model import df_content, new_df
+        from pyvc.state import cur, use_state
+        cg, of = case.split("/")
+        o, inp = _setup_corr(ctx, cg == "coarse")
+        tr, T, N, M, q = inp["tr"], inp["T"], inp["N"], inp["M"], inp["q"]
+        rd = ctx.real("rdelta")
+        # preconditions of conditional_gr (C13): at least two particles, positive bin width, at least one bin in every frame
+        ctx.assume(rd > 0)
+        ctx.assume(N >= 2)
+        BL = tr.BL
+        ctx.array_fact("BL", lambda s, c: z3.Implies(z3.And(c >= 0, c < 3), BL(s, c) >= 2 * sv.zr(rd)))
+        I = z3.IntSort()
+        CG = z3.Function("CGR", I, I, I, z3.RealSort())      # CGR(frame, bin, column): value returned by conditional_gr for that frame
+
+        def cg_val(s, b, ci):
+            return bin_centre(b, rd) if ci == 0 else sv.SV(CG(sv.znum(s), sv.znum(b), z3.IntVal(ci)))
+
+        def frame_table(nrows, fn):
+            return new_df({c: A.new_arr((nrows,), (lambda idx, ci=ci: fn(idx[0], ci)), "float") for ci, c in enumerate(GCOLS)}, GCOLS, nrows)
+
+        def cgr(interp, args, kwargs):
+            """callee contract of conditional_gr(snapshot, condition, conditiontype, ppp, rdelta) for a complex vector field (C13, kind
+            cvector).  requires: snapshot a frame with N >= 2 particles, invertible cell, box lengths >= 2 rdelta; condition a complex
+            (N, m) array; conditiontype 'vector'; ppp in {0,1}^3; rdelta > 0.  ensures: a fresh frame with columns r, gr, gA and
+            int(Lmin/2/rdelta) rows; r[b] = (b+1) rdelta - rdelta/2; gr[b], gA[b] functions of (snapshot, condition, ppp, rdelta, b)."""
+            snapshot, cond, ctype, ppp_a, rdel = args[:5]
+            ts = snapshot.content.get("timestep") if getattr(snapshot, "kind", None) == "obj" else None
+            if not isinstance(ts, sv.SV) or not z3.is_app(ts.t) or ts.t.decl().name() != tr.TS.name():
+                _require(False, "call:conditional_gr:pre:snapshot-is-a-frame-of-the-trajectory", CALL_CGR)
+                raise sv.EngineError("conditional_gr summary: snapshot argument is not a frame of the trajectory")
+            sfr = sv.wrap(ts.t.arg(0))
+            row = A.new_arr((N, M), lambda idx: q.get((sfr, idx[0], idx[1])), "complex")
+            if not _same_array(cond, row, "call:conditional_gr:pre:condition=q_lm-rows-of-the-same-frame", CALL_CGR):
+                raise sv.EngineError("conditional_gr summary: condition is not an array of rank 2")
+            _require(cond.dtype == "complex", "call:conditional_gr:pre:complex-condition", CALL_CGR)
+            _require(isinstance(ctype, str) and ctype == "vector", "call:conditional_gr:pre:conditiontype=vector", CALL_CGR)
+            if not _same_array(ppp_a, inp["ppp"], "call:conditional_gr:pre:ppp=self.ppp", CALL_CGR):
+                raise sv.EngineError("conditional_gr summary: ppp is not an array of rank 1")
+            for k in range(3):
+                _require(sv.or_(sv.cmp("==", ppp_a.get((k,)), 0), sv.cmp("==", ppp_a.get((k,)), 1)), "call:conditional_gr:pre:ppp-in-{0,1}", CALL_CGR)
+            _require(sv.cmp("==", rdel, rd), "call:conditional_gr:pre:rdelta=the-argument", CALL_CGR)
+            _require(sv.cmp(">", rdel, 0), "call:conditional_gr:pre:rdelta>0", CALL_CGR)
+            _require(sv.cmp(">=", snapshot.content.get("nparticle"), 2), "call:conditional_gr:pre:N>=2", CALL_CGR)
+            _require(sv.cmp("!=", _inv_spec(tr.Hm(sfr), 3)[0], 0), "call:conditional_gr:pre:cell-invertible", CALL_CGR)
+            for c in range(3):
+                _require(sv.cmp(">=", tr.bl(sfr, c), sv.mul(2, rdel)), "call:conditional_gr:pre:at-least-one-bin", CALL_CGR)
+            return frame_table(rows_spec(tr, sfr, rdel), lambda b, ci: cg_val(sfr, b, ci))
+        ctx.interp.summaries[CGR] = cgr
+
+        def hint(interp, s, frame, st, lo, hi, item_fn):
+            where = f"{frame.fname}:{s.lineno}"
+            var = "glresults"
+            B0 = rows_spec(tr, lo, rd)
+
+            def inv(k):
+                def val(b, ci):
+                    if ci == 0:     # the bin centres do not depend on the frame: k - lo equal addends
+                        return sv.mul(sv.to_real(sv.sub(k, lo)), bin_centre(b, rd))
+                    return Sum(lo, k, lambda t: cg_val(t, b, ci))
+                return frame_table(B0, val)
+
+            def run(kv, val, extra):
+                fr = Frame(frame.module, dict(frame.env), frame.fname)
+                fr.env[var] = val
+                st2 = st.fork()
+                st2.pc = list(st.pc) + [sv.zb(sv.cmp(">=", kv, lo)), sv.zb(sv.cmp("<", kv, hi))] + extra
+                with use_state(st2):
+                    interp.assign(s.target, item_fn(kv), fr)
+                    outs = interp.exec_block_paths(s.body, fr, st2)
+                normal = [(f2, s2) for f2, s2, out in outs if out[0] == "normal"]
+                if len(outs) != 1 or len(normal) != 1:
+                    raise sv.EngineError("spatial_corr frame loop: body does not have a single normal path")
+                return normal[0]
+
+            def eq_goals(s2, got, want_df, kind):
+                b = sv.fresh_int("b")
+                with use_state(s2):
+                    if not (getattr(got, "kind", None) == "df" and df_content(got)["order"] == GCOLS and A.dim_eq_syntactic(df_content(got)["n"], B0)):
+                        st.side.append(_named(_SideGoal(kind + ":accumulator-is-a-frame(r,gr,gA)-with-the-rows-of-frame-0", z3.BoolVal(False), s2.all_assumptions(), where), LOOP_INV))
+                        return
+                    for c in GCOLS:
+                        g = sv.cmp("==", df_content(got)["cols"][c].get((b,)), df_content(want_df)["cols"][c].get((b,)))
+                        goal = sv.zb(sv.implies(sv.and_(sv.cmp(">=", b, 0), sv.cmp("<", b, B0)), g))
+                        st.side.append(_named(_SideGoal(f"{kind}:column-{c}", goal, s2.all_assumptions(), where), LOOP_INV))
+            if var not in frame.env:
+                raise sv.EngineError("spatial_corr frame loop: no accumulator glresults before the loop")
+            # init: the first iteration, from the real pre-state, establishes inv(lo + 1)
+            lo1 = A.simp(sv.add(lo, 1))
+            want1 = inv(lo1)
+            f2, s2 = run(lo, frame.env[var], [])
+            eq_goals(s2, f2.env.get(var), want1, "loop-init")
+            # step: from inv(k), lo + 1 <= k < hi, the body establishes inv(k + 1)
+            k = sv.fresh_int("k")
+            cur_df, nxt_df = inv(k), inv(A.simp(sv.add(k, 1)))
+            f3, s3 = run(k, cur_df, [sv.zb(sv.cmp(">=", k, lo1))])
+            eq_goals(s3, f3.env.get(var), nxt_df, "loop-step")
+            # post-state (the loop runs at least once: T >= 1)
+            frame.env[var] = inv(hi)
+            interp.assign(s.target, item_fn(A.simp(sv.sub(hi, 1))), frame)
+        ln = _first_for_lineno(self.qualname)
+        ctx.interp.loop_hints[(f"{MOD}.{self.qualname}", "for", ln)] = hint
+        outputfile = "gl.csv" if of == "file" else ""
+        inp.update(rd=rd, CG=CG, of=outputfile, b=ctx.int("b"), cg_val=cg_val)
+        return [o], dict(coarse_graining=(cg == "coarse"), rdelta=rd, outputfile=outputfile), inp
+
+    def clause_names(self, case):
+        return [CALL_CGR, LOOP_INV, "columns=(r,gr,gA)", "rows=int(Lmin/2/rdelta)", "r=bin-centre", "gr,gA=frame-average-of-conditional_gr", "file=returned"]
+
+    def ensures(self, ctx, case, inp, out):
+        from pyvc.pandas_model import df_content
+        res = out.value
+        ok = getattr(res, "kind", None) == "df" and df_content(res)["order"] == GCOLS
+        yield "columns=(r,gr,gA)", bool(ok)
+        if not ok:
+            return
+        tr, T, rd, b = inp["tr"], inp["T"], inp["rd"], inp["b"]
+        n = df_content(res)["n"]
+        cols = df_content(res)["cols"]
+        B = rows_spec(tr, 0, rd)
+        yield "rows=int(Lmin/2/rdelta)", sv.and_(sv.cmp("==", n, B), *[sv.cmp("==", cols[c].shape[0], n) for c in GCOLS])
+        inr = sv.and_(sv.cmp(">=", b, 0), sv.cmp("<", b, B))
+        yield "r=bin-centre", sv.implies(inr, sv.cmp("==", cols["r"].get((b,)), bin_centre(b, rd)))
+        eqs = []
+        for ci, c in enumerate(GCOLS):
+            if ci:
+                want = sv.div(Sum(0, T, lambda t: inp["cg_val"](t, b, ci)), T)
+                eqs.append(sv.cmp("==", cols[c].get((b,)), want))
+        yield "gr,gA=frame-average-of-conditional_gr", sv.implies(inr, sv.and_(*eqs))
+        writes = [e for e in out.state.trace if e[0] in ("to_csv", "np.save", "np.savetxt")]
+        if not inp["of"]:
+            yield "file=returned", len(writes) == 0
+        elif len(writes) == 1 and writes[0][0] == "to_csv" and writes[0][1] == inp["of"] and writes[0][3] == GCOLS and writes[0][4] == "%.8f":
+            yield "file=returned", sv.implies(inr, sv.and_(sv.cmp("==", writes[0][5], n),
+                                                           *[sv.cmp("==", writes[0][2][c].get((b,)), cols[c].get((b,))) for c in GCOLS]))
+        else:
+            yield "file=returned", False
+
+    def replay(self, case, clause, model, seed):
+        return _replay_boo("spatial_corr", case, clause, model, seed)
+
+
+class TimeCorr(Unit):
+    """boo_3d.time_corr(coarse_graining, dt, outputfile): time_correlation(trajectory, q_lm resp. Q_lm, dt) (C14 callee contract: frame
+    (t, time_corr) with T rows, t[k] = (ts_k - ts_0) dt, time_corr[k] = C(k)/C(0) where C is the origin-averaged autocorrelation
+    Re sum_i sum_m q_lm(i, n0+k) conj q_lm(i, n0) for evenly spaced frames and the first-origin one otherwise; requires C(0) != 0), whose
+    column time_corr is multiplied by 4 pi/(2l+1) and divided by its own (rescaled) row 0.  Postcondition (eq. (9) normalised as the code's
+    comment and the library's C14 convention say): row 0 is exactly 1, time_corr[k] = C(k)/C(0) — the factor 4 pi/(2l+1) cancels —, t is
+    the callee's time axis, the CSV holds the returned columns."""
+    module = MOD
+    qualname = f"{CLS}.time_corr"
+    prop = "C09"
+    timeout = 10
+
+    def cases(self):
+        return [f"{cg}/{of}" for cg in ("local", "coarse") for of in ("nofile", "file")]
+
+    def setup(self, ctx, case):
+        from contracts.C14 import Spec
+        from pyvc.pandas_model import df_method, new_df
+        from pyvc.state import cur
+        cg, of = case.split("/")
+        o, inp = _setup_corr(ctx, cg == "coarse")
+        tr, T, N, M, q = inp["tr"], inp["T"], inp["N"], inp["M"], inp["q"]
+        dt = ctx.real("dt")
+        # C14's case split: evenly spaced frames (needs T >= 2) use every time origin, any other series the first frame only
+        even = ctx.bool("frames_evenly_spaced")
+        ctx.assume(sv.implies(even, sv.cmp(">=", T, 2)))
+        spec = Spec(q, 3, M, T, N)
+
+        def C(k):
+            return sv.ite(even, sv.SV(spec.C(k, "linear")), sv.SV(spec.C(k, "log")))
+        C0 = C(0)
+        ctx.assume(sv.cmp("!=", C0, 0))      # precondition of time_correlation (C14): the lag-zero value it divides by is non-zero
+
+        def ts(k):
+            return sv.SV(tr.TS(sv.znum(k)))
+        calls = []
+
+        def tc(interp, args, kwargs):
+            """callee contract of time_correlation(snapshots, condition, dt, outputfile) for a rank-3 (vector) series (C14)"""
+            snapshots, cond, dt_a, outfile = args[:4]
+            _require(getattr(snapshots, "sid", None) == inp["snaps"].sid, "call:time_correlation:pre:snapshots-is-the-trajectory", CALL_TC)
+            if not _same_array(cond, q, "call:time_correlation:pre:condition=the-selected-q_lm-field", CALL_TC):
+                raise sv.EngineError("time_correlation summary: condition is not an array of rank 3")
+            _require(sv.cmp("==", dt_a, dt), "call:time_correlation:pre:dt=the-argument", CALL_TC)
+            _require(sv.cmp("!=", C0, 0), "call:time_correlation:pre:C(0)!=0", CALL_TC)
+            calls.append(1)
+            cols = {"t": A.new_arr((T,), lambda idx: sv.mul(sv.to_real(sv.sub(ts(idx[0]), ts(0))), dt_a), "float"),
+                    "time_corr": A.new_arr((T,), lambda idx: sv.div(C(idx[0]), C0), "float")}
+            df = new_df(cols, ["t", "time_corr"], T)
+            cur().assume(sv.cmp("==", sv.div(C0, C0), 1))     # ensures clause time_corr[0] = 1 of the callee
+            if outfile:        # the callee writes its own (un-rescaled) table when it is given a file name
+                df_method(interp, df, "to_csv", [outfile], {"float_format": "%.8f", "index": False})
+            return df
+        ctx.interp.summaries[TCORR] = tc
+        outputfile = "gl_time.csv" if of == "file" else ""
+        inp.update(dt=dt, C=C, C0=C0, ts=ts, of=outputfile, k=ctx.int("k"), calls=calls)
+        return [o], dict(coarse_graining=(cg == "coarse"), dt=dt, outputfile=outputfile), inp
+
+    def clause_names(self, case):
+        return [CALL_TC, "returns-frame(t,time_corr)-with-T-rows", "t[k]=(ts_k-ts_0)*dt", "time_corr[k]=C(k)/C(0)", "time_corr[0]=1",
+                "div0:rescaled-row-0-is-nonzero", "file=returned"]
+
+    def ensures(self, ctx, case, inp, out):
+        from pyvc.pandas_model import df_content
+        res = out.value
+        T, k, l = inp["T"], inp["k"], inp["l"]
+        ok = getattr(res, "kind", None) == "df" and df_content(res)["order"] == ["t", "time_corr"] and A.dim_eq_syntactic(df_content(res)["n"], T) \
+            and all(A.dim_eq_syntactic(df_content(res)["cols"][c].shape[0], T) for c in ("t", "time_corr")) and len(inp["calls"]) == 1
+        yield "returns-frame(t,time_corr)-with-T-rows", bool(ok)
+        if not ok:
+            return
+        cols = df_content(res)["cols"]
+        inr = sv.and_(sv.cmp(">=", k, 0), sv.cmp("<", k, T))
+        yield "t[k]=(ts_k-ts_0)*dt", sv.implies(inr, sv.cmp("==", cols["t"].get((k,)), sv.mul(sv.to_real(sv.sub(inp["ts"](k), inp["ts"](0))), inp["dt"])))
+        # the value at lag k: C(k)/C(0) (the factor 4 pi/(2l+1) cancels: identity of rational functions, the divisor is the div0 clause)
+        yield "time_corr[k]=C(k)/C(0)", sv.implies(inr, sv.cmp("==", cols["time_corr"].get((k,)), sv.div(inp["C"](k), inp["C0"]))), {"ring_only": True}
+        yield "time_corr[0]=1", sv.cmp("==", cols["time_corr"].get((0,)), 1)
+        # the divisor the code introduces: row 0 of the rescaled column, 4 pi/(2l+1) * C(0)/C(0)
+        yield "div0:rescaled-row-0-is-nonzero", sv.and_(sv.cmp("!=", sv.add(sv.mul(2, l), 1), 0),
+                                                        sv.cmp("!=", sv.mul(sv.div(sv.mul(4, sv.PI), sv.add(sv.mul(2, l), 1)), sv.div(inp["C0"], inp["C0"])), 0))
+        writes = [e for e in out.state.trace if e[0] in ("to_csv", "np.save", "np.savetxt")]
+        if not inp["of"]:
+            yield "file=returned", len(writes) == 0
+        elif writes and all(e[0] == "to_csv" and e[1] == inp["of"] for e in writes) and writes[-1][3] == ["t", "time_corr"] and writes[-1][4] == "%.8f":
+            # the content of the file is what the last write put there
+            w = writes[-1]
+            yield "file=returned", sv.and_(sv.cmp("==", w[5], T), sv.implies(inr, sv.and_(*[sv.cmp("==", w[2][c].get((k,)), cols[c].get((k,))) for c in ("t", "time_corr")])))
+        else:
+            yield "file=returned", False
+
+    def replay(self, case, clause, model, seed):
+        return _replay_boo("time_corr", case, clause, model, seed)
+
+
 # ---- lemmas on the spec (fresh variables) -------------------------------------------------------------------------
 
 def lemmas():
@@ -794,7 +1243,7 @@ def extra_checks(tier, seed, repo):
     return {"obligations": obs}
 
 
-UNITS = [QlQl(), QlmQlm(), Sij(), WCap()]
+UNITS = [QlQl(), QlmQlm(), Sij(), WCap(), SpatialCorr(), TimeCorr()]
 # callee contracts of other properties used at call sites: their units are re-verified with this check
 from contracts.common import callee_units as _callee_units   # noqa: E402
 UNITS = UNITS + _callee_units([('C02', None), ('C05', {'read_neighbors'}), ('C08', None)], UNITS)
